@@ -18,6 +18,9 @@ def generate(G):
         G.ob("c16_from_bad_r%d_len%d" % (rank, ln), "C16", "from_dims_values", "c16::from_dims_values(s, %d, %d, %d, false)" % (rank, mx, ln),
              unwind=ln + 4, tier=tier, kind="refusal",
              skeleton={"rank": rank, "extents": "symbolic in 0..=%d" % mx, "length": ln, "side": "invalid => refused"})
+    for rank, tier in ((1, "quick"), (3, "quick"), (2, "thorough"), (4, "thorough")):
+        G.ob("c16_zeros_zero_dim_r%d" % rank, "C16", "zeros_zero_dim", "c16::zeros_zero_dim(s, %d)" % rank, unwind=rank + 3, tier=tier,
+             kind="refusal", skeleton={"rank": rank, "extents": "symbolic in 0..=3, at least one zero", "constructor": "from dimensions alone (zeros)"})
     for depth, tier in ((1, "quick"), (2, "quick"), (3, "quick")):
         G.ob("c16_nested_d%d" % depth, "C16", "nested", "c16::nested(s, %d)" % depth, unwind=10, tier=tier, skeleton={"depth": depth})
     for v, tier in ((0, "quick"), (1, "thorough"), (2, "quick"), (3, "quick"), (4, "thorough")):
